@@ -45,6 +45,8 @@ AnsE           == St("anse", "", "", 0, "")      \* ans + 1
 QExpr          == St("qexpr", "", "", 0, "")     \* 4 kilozw / (2 zw): raw value 2 kilozw/zw, DISPLAYED (simplified) as 2000
 AnsVal         == St("ansval", "", "", 0, "")    \* value_of(ans): the magnitude of the last result as it was computed
 UnitDef(a)     == St("unitdef", a, "", 0, "")    \* unit a
+UnitDer(a)     == St("unitder", a, "", 0, "")    \* unit a = 2 zu         (derived unit: unit registry + constant)
+UnitUse(a)     == St("unituse", a, "", 0, "")    \* (3 a -> zu) / zu      (6 for a derived unit a; a type error otherwise)
 DimDef(a)      == St("dimdef", a, "", 0, "")     \* dimension Cap(a)
 StructDef      == St("structdef", "", "", 0, "") \* struct Sa { f: ZL }
 PrintS(a)      == St("print", a, "", 0, "")      \* print(a + 0)
@@ -67,6 +69,8 @@ Text(s) ==
     [] s.t = "qexpr"     -> "4 kilozw / (2 zw)"
     [] s.t = "ansval"    -> "value_of(ans)"
     [] s.t = "unitdef"   -> "unit " \o s.a
+    [] s.t = "unitder"   -> "unit " \o s.a \o " = 2 zu"
+    [] s.t = "unituse"   -> "(3 " \o s.a \o " -> zu) / zu"
     [] s.t = "dimdef"    -> "dimension " \o Cap(s.a)
     [] s.t = "structdef" -> "struct Sa { f: ZL }"
     [] s.t = "print"     -> "print(" \o s.a \o " + 1 - 1)"
@@ -92,6 +96,7 @@ ModText(m) == IF m = "me" THEN "let me_x = 1\nlet = 2" ELSE InputText(ModBody(m)
 \* ------------------------------------------------------------------- state
 InitSt == [ imported |-> {},
             units    |-> {},                       \* unit names (prefix parser)
+            uder     |-> {},                       \* those of them that are derived from zu (convertible to zu)
             others   |-> {},                       \* variable / function names (prefix parser)
             vkind    |-> [i \in Ids |-> "none"],   \* value namespace: none | var | fn
             val      |-> [i \in Ids |-> 0],        \* value of the innermost binding (0 = none)
@@ -131,7 +136,7 @@ Stage1(w, s) ==
   ELSE IF Defines(s)
        THEN IF s.a \in w.units THEN [err |-> "clash", w |-> w]
             ELSE [err |-> "", w |-> [w EXCEPT !.others = @ \cup {s.a}]]
-  ELSE IF s.t = "unitdef"
+  ELSE IF s.t \in {"unitdef", "unitder"}
        THEN IF s.a \in w.units \cup w.others THEN [err |-> "clash", w |-> w]
             ELSE [err |-> "", w |-> [w EXCEPT !.units = @ \cup {s.a}]]
   ELSE [err |-> "", w |-> w]
@@ -165,6 +170,8 @@ Stage2(w, s) ==
     [] s.t = "qexpr" -> Ok([w EXCEPT !.hasans = TRUE])
     [] s.t = "unitdef" ->
          IF Cap(s.a) \in w.dims THEN Bad(w, "registry") ELSE Ok([w EXCEPT !.dims = @ \cup {Cap(s.a)}])
+    [] s.t = "unitder" -> Ok([w EXCEPT !.uder = @ \cup {s.a}])
+    [] s.t = "unituse" -> IF s.a \in w.uder THEN Ok([w EXCEPT !.hasans = TRUE]) ELSE Bad(w, "expr")
     [] s.t = "dimdef" ->
          IF Cap(s.a) \in w.tns THEN Bad(w, "type_namespace")
          ELSE IF Cap(s.a) \in w.dims THEN Bad(w, "registry")
@@ -186,6 +193,7 @@ Stage3(w, s) ==
     [] s.t = "anse"     -> Ok([w EXCEPT !.res = w.ans + 1, !.ans = w.ans + 1, !.ansmag = w.ans + 1])
     [] s.t = "qexpr"    -> Ok([w EXCEPT !.res = 2000, !.ans = 2000, !.ansmag = 2])
     [] s.t = "ansval"   -> Ok([w EXCEPT !.res = w.ansmag, !.ans = w.ansmag])
+    [] s.t = "unituse"  -> Ok([w EXCEPT !.res = 6, !.ans = 6, !.ansmag = 6])
     [] s.t = "print"    -> Ok([w EXCEPT !.out = Append(@, w.val[s.a])])
     [] s.t = "asserteq" -> IF w.val[s.a] = s.k THEN Ok(w) ELSE Bad(w, "assert_eq")
     [] OTHER            -> Ok(w)
@@ -201,10 +209,10 @@ RECURSIVE Fold3(_, _)
 Fold3(w, ss) == IF ss = << >> THEN Ok(w)
                 ELSE LET r == Stage3(w, Head(ss)) IN IF r.err # "" THEN r ELSE Fold3(r.w, Tail(ss))
 
-Work(st) == [imported |-> st.imported, units |-> st.units, others |-> st.others, vkind |-> st.vkind,
+Work(st) == [imported |-> st.imported, units |-> st.units, uder |-> st.uder, others |-> st.others, vkind |-> st.vkind,
              val |-> st.val, fnv |-> st.fnv, dims |-> st.dims, xdims |-> st.xdims, tns |-> st.tns,
              ans |-> st.ans, ansmag |-> st.ansmag, hasans |-> st.ans # 0, out |-> << >>, res |-> 0]
-Unwork(w) == [imported |-> w.imported, units |-> w.units, others |-> w.others, vkind |-> w.vkind,
+Unwork(w) == [imported |-> w.imported, units |-> w.units, uder |-> w.uder, others |-> w.others, vkind |-> w.vkind,
               val |-> w.val, fnv |-> w.fnv, dims |-> w.dims, xdims |-> w.xdims, tns |-> w.tns, ans |-> w.ans,
               ansmag |-> w.ansmag]
 
@@ -239,7 +247,7 @@ ProbeInputs == << <<Expr("za")>>, <<Expr("zb")>>, <<Expr("zc")>>, <<Call("za")>>
                   <<Use("ma")>>, <<Use("mb")>>, <<Use("mc")>>, <<Use("md")>>, <<Use("me")>>, <<Use("mf")>>,
                   <<Use("mg")>>, <<Use("mz")>>,
                   <<UnitDef("za")>>, <<UnitDef("zb")>>, <<DimDef("za")>>, <<DimDef("zb")>>, <<StructDef>>,
-                  <<Let("za", 1)>>, <<Fn("zb", 1)>> >>
+                  <<Let("za", 1)>>, <<Fn("zb", 1)>>, <<UnitUse("za")>>, <<UnitUse("zc")>>, <<UnitDer("zc")>> >>
 ProbeOf(st, p) == LET r == Submit(st, p) IN [outcome |-> r.outcome, res |-> r.res, vars |-> VarNames(r.st)]
 Obs(st) == [vars |-> VarNames(st), fns |-> FnNames(st), units |-> st.units, dims |-> st.xdims,
             probes |-> [i \in 1..Len(ProbeInputs) |-> ProbeOf(st, ProbeInputs[i])]]
